@@ -112,6 +112,10 @@ func impliedAtoms(v ssa.Value, pol bool, depth int) []atomFact {
 	if inner != v {
 		out = append(out, atomFact{v, orig})
 	}
+	// a call of an unexported boolean function of the module: what its result being pol implies inside it
+	if cl, ok := inner.(*ssa.Call); ok && depth < 2 {
+		out = append(out, calleeAtoms(cl, pol, depth)...)
+	}
 	if ph, ok := inner.(*ssa.Phi); ok && depth < 4 {
 		// edges compatible with the outcome
 		var cand []ssa.Value
@@ -241,4 +245,65 @@ func hasAtom(as []atomFact, v ssa.Value, val bool) bool {
 		}
 	}
 	return false
+}
+
+
+// calleeAtoms: for a call g(args) of an unexported, non-recursive boolean function of the module, the atoms of
+// g that hold on every way g can return `pol` (constant returns: the atoms on every path to them in g's split
+// graph; expression returns: additionally what the expression being pol implies). The atoms are values of g;
+// rules that compare them with values of the caller rewrite g's parameters to the arguments of the call.
+func calleeAtoms(cl *ssa.Call, pol bool, depth int) []atomFact {
+	g := cl.Call.StaticCallee()
+	if g == nil || g.Blocks == nil || !inModule(g) || token.IsExported(g.Name()) || g.Signature.Results().Len() != 1 {
+		return nil
+	}
+	if bt, ok := g.Signature.Results().At(0).Type().Underlying().(*types.Basic); !ok || bt.Kind() != types.Bool {
+		return nil
+	}
+	cands := atomsIn(g)
+	var rets []*ssa.Return
+	for _, r := range returnsOf(g) {
+		if k, isK := boolConst(r.Results[0]); isK && k != pol {
+			continue
+		}
+		rets = append(rets, r)
+	}
+	if len(rets) == 0 {
+		return nil
+	}
+	var out []atomFact
+	for _, a := range cands {
+		a := a
+		all := true
+		for _, r := range rets {
+			holds := mustPassAtoms(g, r.Block(), func(as []atomFact) bool { return hasAtom(as, a.v, a.val) })
+			if !holds {
+				if _, isK := boolConst(r.Results[0]); !isK && depth < 2 {
+					for _, x := range impliedAtoms(r.Results[0], pol, depth+1) {
+						if x.v == a.v && x.val == a.val {
+							holds = true
+						}
+					}
+				}
+			}
+			if !holds {
+				all = false
+				break
+			}
+		}
+		if all {
+			out = append(out, a)
+		}
+	}
+	// atoms that appear only inside a returned expression
+	if len(rets) == 1 {
+		if _, isK := boolConst(rets[0].Results[0]); !isK && depth < 2 {
+			for _, x := range impliedAtoms(rets[0].Results[0], pol, depth+1) {
+				if !hasAtom(out, x.v, x.val) {
+					out = append(out, x)
+				}
+			}
+		}
+	}
+	return out
 }
